@@ -67,6 +67,14 @@ class TimeRoundTrip(Obligation):
     max_paths = 400
     timeout_ms = 60000
     stubs = ('datetime reference (symdatetime calendar tables)',)
+    encoding_fragile = True          # AST slice of ncf2uamiv
+    replay_only_labels = ('payload',)
+
+    def fallback_inputs(self):
+        last = 366 if self.year % 4 == 0 else 365
+        return [{'d_j': last, 't_H': 23}, {'d_j': last, 't_H': 22},
+                {'d_j': 1, 't_H': 0}, {'d_j': 59, 't_H': 23},
+                {'d_j': 200, 't_H': 11}]
 
     def __init__(self, year, T, etflag):
         self.year, self.T, self.etflag = year, T, etflag
@@ -194,8 +202,12 @@ class TimeRoundTrip(Obligation):
                         ev[t, 0, :] = e
                 v = f.createVariable('O3', 'f', ('TSTEP', 'LAY', 'ROW',
                                                  'COL'))
-                v[:] = np.arange(self.T * 4, dtype='f').reshape(self.T, 1, 2,
-                                                                2)
+                pay = np.arange(self.T * 4, dtype='f').reshape(self.T, 1, 2,
+                                                               2)
+                # bit patterns that must travel unchanged
+                pay[0] = -0.0
+                pay[-1, 0, 1, 1] = np.float32(1e-45)
+                v[:] = pay
                 f.NAME, f.NOTE = 'AVERAGE   ', 'x'.ljust(60)
                 f.ITZON, f.PLON, f.PLAT, f.IUTM = 0, 0., 0., 0
                 f.XORIG, f.YORIG, f.XCELL, f.YCELL = 0., 0., 1000., 1000.
@@ -207,9 +219,11 @@ class TimeRoundTrip(Obligation):
                     g = uamiv(path)
                     t2 = np.array(g.variables['TFLAG'][:, 0, :])
                     e2 = np.array(g.variables['ETFLAG'][:, 0, :])
-                    if not np.array_equal(np.array(g.variables['O3']),
-                                          np.array(v)):
-                        viol['payload'] = 'data differ after round trip'
+                    if not np.array_equal(
+                            np.array(g.variables['O3'], dtype='f').view('i4'),
+                            pay.view('i4')):
+                        viol['payload'] = 'float32 bit patterns differ ' \
+                            'after the round trip'
                 except Exception as ex:
                     viol['writer-raised:' + type(ex).__name__] = \
                         repr(ex)[:200]
